@@ -52,6 +52,14 @@ CHECKS = {
                 technique="alphabet product over vector sizes / scalar vectors / rho / scratch sizes + single-mutation enumeration + total small-group enumeration, lock-step norm-argument reference model (prover and round-by-round verifier)",
                 text="Prove->verify completeness over the (|n|,|l|) grid {1,2,4,8}^2 (thorough ..64) x vector / rho / transcript alphabets x prover and verifier scratch sizes (every 16-byte step up to sufficient; insufficient must fail closed); the model reproduces library proofs byte for byte and its verifier decides every mutated proof: all single-bit flips, sign byte > 3, infinity encodings, x+p / off-curve points, s+n re-encodings, rho = 0, wrong lengths incl. trailing bytes, non-power-of-two sizes, generator-count mismatch; model-constructed accepting instances with X / R at infinity; generator lists for every count 0..256 (prefix-consistent, equal to the RFC6979->SvdW model, round trip, malformed lengths, bad point at every index with a balanced allocation ledger); in the order-13 build every vector and every well-formed proof string for small sizes is enumerated.",
                 note="secp256k1 scalar vectors outside the alphabets are not explored; non-power-of-two sizes are only driven with the all-zero statement (a general input would make a defective verifier read outside its arrays)."),
+    "C09": dict(level=MC, design="§4 C09",
+                technique="full product of the interacting clamp dimensions + single-deviation enumeration on the real prover, oracle = documented success/failure classes + soundness obligations + specified (model) verifier",
+                text="The full product value x min_value x exponent x min_bits over boundary alphabets (16 x 16 x 9 x 12 in quick; 70 x 70 x 22 x 67 in thorough) is run through the real prover; documented-invalid parameters must be refused, documented-valid ones must succeed, and every success - also in the grey zone the header leaves open - must verify with min <= value <= max, agree with rangeproof_info, stay within rangeproof_max_size, rewind to exactly (value, blind, zero-padded message) with the creator's nonce and fail with any other, be byte-deterministic, and be accepted with the same range by the independent model verifier; message length (around 128*(rings-1)), extra-commit length, blinds, nonces, generators and output-buffer sizes are explored as single deviations on 12 core points.",
+                note="Parameter values outside the alphabets are not explored; where the header is looser than the code (value >= 2^63 with non-zero min_value / exp) refusal and success are both accepted."),
+    "C10": dict(level=MC, design="§4 C10",
+                technique="model-prover construction of adversarial-but-valid proofs + single-mutation enumeration, decided by an independent model verifier; total enumeration of the 2-byte header space for rangeproof_info",
+                text="Proofs are built by a Python prover that controls every free value (digit blinding factors, ring nonces, forged scalars 1..3) for exponent {0,1,18} x mantissa 0..8 (thorough 63, 64) x has_min x digit patterns covering every signer position, plus proofs that are valid only under a lenient header parser (exponent 19..31, reserved bit, min+max wrapping, 2^mantissa*10^exp overflow); each proof is presented as built and under every single mutation of a finite alphabet (each ring scalar <- s+n / 0 / n, e0, digit x <- x+p / off-curve / p, every sign and spare bit, header and mantissa bytes, trailing and truncated lengths, other commitment / generator / extra data, every single-bit flip for the small proofs); the model verifier's verdict and reported range must equal the library's. rangeproof_info is compared with the header specification on all 65536 (byte0, byte1) x 6 min_value x 8 lengths.",
+                note="Adversarial proofs use the forged-scalar alphabet {1,2,3} (+n); Borromean code is dead in the small-group builds, so there is no total enumeration over scalars."),
 }
 
 NOT_YET = "check not built yet in this round (work in progress; see DESIGN.md section 4 for the planned exploration)"
